@@ -72,6 +72,11 @@ CONTEXTS = [
     ("fraction", "<mfrac><mrow>{N}</mrow><mn>7</mn></mfrac>"),
     ("sentence", "<mi>x</mi><mo>=</mo>{N}<mo>.</mo>"),
     ("parens", "<mo>(</mo>{N}<mo>)</mo><mo>+</mo><mn>1</mn>"),
+    # white space tokens around the number (white space is a block separator: the candidate collects them and must cut them off again)
+    ("ws-after-2", "{N}<mspace width='0.3em'/><mtext>&#x2009;</mtext><mi>m</mi>"),
+    ("ws-after-3", "<mi>x</mi><mo>=</mo>{N}<mo>&#xA0;</mo><mspace width='1em'/><mtext>&#x2009;</mtext>"),
+    ("ws-before-2", "<mi>x</mi><mo>=</mo><mspace width='0.3em'/><mtext>&#x2009;</mtext>{N}<mo>+</mo><mn>1</mn>"),
+    ("ws-both", "<mtext>&#x2009;</mtext><mspace width='0.2em'/>{N}<mtext>&#x2009;</mtext><mo>&#xA0;</mo>"),
 ]
 
 ADVERSARIAL = [
